@@ -1543,6 +1543,7 @@ class DFA(fa.FA):
                 candidate = symbol_succ[candidate]
             should_yield = True
         # Predecessor yields here for empty string
+        state = state_stack[-1]
         if (
             reverse
             and should_yield
